@@ -29,7 +29,11 @@ import (
 	"fmt"
 	"io"
 	"os"
+	"runtime"
+	"runtime/pprof"
 	"sort"
+	"sync"
+	"sync/atomic"
 
 	"verifharness/internal/core"
 	"verifharness/internal/gen"
@@ -132,6 +136,18 @@ func copyFile(src, dst string) error {
 	return out.Close()
 }
 
+// tempDir makes the work directory of one state.  A memory file system is
+// preferred: every committed transaction ends in an fsync, and the check makes
+// thousands of them on throw-away files.
+func tempDir(pattern string) (string, error) {
+	if st, err := os.Stat("/dev/shm"); err == nil && st.IsDir() {
+		if d, err := os.MkdirTemp("/dev/shm", pattern); err == nil {
+			return d, nil
+		}
+	}
+	return os.MkdirTemp("", pattern)
+}
+
 func wantK(in *input, k int) bool {
 	if len(in.Ks) == 0 {
 		return true
@@ -189,12 +205,23 @@ func bucketN(n int) string {
 }
 
 func main() {
-	var kind string
+	var kind, cpuprof string
 	var perHist int
 	core.Main("c10", func(fs *flag.FlagSet) {
+		fs.StringVar(&cpuprof, "cpuprofile", "", "write a CPU profile (development aid)")
 		fs.StringVar(&kind, "kind", "both", "tx|mgr|both")
 		fs.IntVar(&perHist, "states", 2, "states sampled per generated history")
 	}, func(c *core.Common, out *core.Emitter) error {
+		if cpuprof != "" {
+			pf, err := os.Create(cpuprof)
+			if err != nil {
+				return err
+			}
+			if err := pprof.StartCPUProfile(pf); err != nil {
+				return err
+			}
+			defer pprof.StopCPUProfile()
+		}
 		if c.Replay != "" {
 			return core.ReadReplay(c.Replay, func(raw json.RawMessage) error {
 				var cs struct {
@@ -229,35 +256,57 @@ func main() {
 		case "mgr":
 			nTx, nMgr = 0, c.N
 		}
+		var ins []input
 		for i, done := 0, 0; done < nTx; i++ {
 			r := gen.New(c.Seed, int64(10000+i))
-			ins := genTxStates(r, perHist, nTx-done)
-			for _, in := range ins {
-				co, err := runTxCase(in)
-				if err != nil {
-					return err
-				}
-				out.Emit(co)
-				done++
-			}
+			g := genTxStates(r, perHist, nTx-done)
+			ins = append(ins, g...)
+			done += len(g)
 			if i > 50*nTx+100 {
 				return fmt.Errorf("tx generator does not produce states")
 			}
 		}
 		for i, done := 0, 0; done < nMgr; i++ {
 			r := gen.New(c.Seed, int64(20000+i))
-			ins := genMgrStates(r, perHist, nMgr-done)
-			for _, in := range ins {
-				co, err := runMgrCase(in)
-				if err != nil {
-					return err
-				}
-				out.Emit(co)
-				done++
-			}
+			g := genMgrStates(r, perHist, nMgr-done)
+			ins = append(ins, g...)
+			done += len(g)
 			if i > 50*nMgr+100 {
 				return fmt.Errorf("mgr generator does not produce states")
 			}
+		}
+		// the states are independent: run them on a few workers, emit in order
+		outs := make([]*caseOut, len(ins))
+		errs := make([]error, len(ins))
+		workers := runtime.NumCPU()
+		if workers > 8 {
+			workers = 8
+		}
+		var wg sync.WaitGroup
+		next := int64(-1)
+		for w := 0; w < workers; w++ {
+			wg.Add(1)
+			go func() {
+				defer wg.Done()
+				for {
+					i := int(atomic.AddInt64(&next, 1))
+					if i >= len(ins) {
+						return
+					}
+					if ins[i].Kind == "tx" {
+						outs[i], errs[i] = runTxCase(ins[i])
+					} else {
+						outs[i], errs[i] = runMgrCase(ins[i])
+					}
+				}
+			}()
+		}
+		wg.Wait()
+		for i := range ins {
+			if errs[i] != nil {
+				return errs[i]
+			}
+			out.Emit(outs[i])
 		}
 		return nil
 	})
